@@ -18,6 +18,8 @@
 #include "impl/net_async_impl.h"
 #include <errno.h>
 #include <poll.h>
+#include <unistd.h>
+#include <sys/wait.h>
 
 #define LOGIN "user-c14"
 #define KEY   "key-c14-secret"
@@ -559,7 +561,7 @@ static void rx_long_stream(const int *kinds, int nk) {
 		}
 		if (!huge && n <= 40 && VF_THOROUGH) {
 			for (a = 1; a < n; a++) for (b = a + 1; b < n; b++) rx_cut_case(kinds, nk, a, b, wb);   /* every 2-cut */
-		} else if (VF_THOROUGH || nk <= 2) {
+		} else if ((VF_THOROUGH && (nk <= 2 || wb == 0)) || (!VF_THOROUGH && nk <= 2)) {
 			for (i = 0; i < no; i++) for (j = i + 1; j < no; j++) rx_cut_case(kinds, nk, off[i], off[j], wb);
 		}
 	}
@@ -904,26 +906,30 @@ static void scenario(const scen_t *sc) {
 	count_env(E.runs);
 }
 
-/* sizes learnt from one default run (deterministic): request end offsets RO[k] (k requests back to back), response size P */
-static size_t RO[MAXREQ + 1], P_SZ;
+/* sizes learnt from one default run (deterministic): request end offsets RO[k] (k requests back to back), response size P.
+ * The run is done in a forked process and its failure is tolerated (the sizes of the unmodified library are used then), so that a
+ * library that breaks even the default schedule is reported by the cases "cal:async" / "cal:blk", not as a harness error. */
 #define NCAL 5
-static void calibrate(void) {
+static size_t RO[MAXREQ + 1] = {0, 102, 205, 308, 411, 514}, P_SZ = 147;
+static int cal_async_ok, cal_blk_ok;
+static int calibrate(size_t *ro, size_t *p) {
 	e2e_t E;
-	int j;
+	int j, ok = 1;
 	env_install();
 	e2e_open(&E);
 	SV.expect = NCAL;
 	for (j = 0; j < NCAL; j++) e2e_add(&E);
 	e2e_pump(&E, NCAL, 20, 1);
-	RO[0] = 0;
+	ro[0] = 0;
 	for (j = 0; j < NCAL; j++) {
-		if (!E.r[j].returned || E.r[j].state != KSI_ASYNC_STATE_RESPONSE_RECEIVED || !E.r[j].own) vf_harness_error("calibration: default schedule does not complete request %d (state %d err 0x%x)", j, E.r[j].state, E.r[j].err);
-		RO[j + 1] = RO[j] + REQ[j].n;
-		if (SV.resp_end[j] != (size_t)(j + 1) * SV.resp_end[0]) vf_harness_error("calibration: response sizes differ");
+		if (!E.r[j].returned || E.r[j].state != KSI_ASYNC_STATE_RESPONSE_RECEIVED || !E.r[j].own) ok = 0;
+		ro[j + 1] = ro[j] + REQ[j].n;
+		if (SV.resp_end[j] != (size_t)(j + 1) * SV.resp_end[0]) ok = 0;
 	}
-	P_SZ = SV.resp_end[0];
-	if (sn_nconn != 1 || sn_conns[0].out.n != RO[NCAL]) vf_harness_error("calibration: unexpected sizes");
+	*p = SV.resp_end[0];
+	if (sn_nconn != 1 || sn_conns[0].out.n != ro[NCAL] || *p == 0) ok = 0;
 	e2e_close(&E);
+	return ok;
 }
 static int reqs_before(size_t off) { int k = 0; while (k < NCAL && RO[k + 1] <= off) k++; return k; }
 static int req_boundary_near(size_t x, int n, size_t d) {
@@ -968,11 +974,11 @@ static void part_e2e(void) {
 	for (n = 1; n <= 3; n++) for (wb = 0; wb < 2; wb++) {
 		size_t len = (size_t)n * P_SZ;
 		for (a = 1; a < len; a++) e2e_rx_case(n, a, 0, wb);
-		/* 2-cuts. thorough: every pair for 1..2 responses and for 3 responses without would-block; with would-block on 3 responses the pairs
-		 * touching a PDU boundary (+-6) and every third other pair. quick: every pair on one response, boundary pairs + a stride otherwise */
+		/* 2-cuts. thorough: every pair for 1..2 responses; for 3 responses every pair touching a PDU boundary (+-8) and every second
+		 * (with would-block: every third) other pair. quick: every pair on one response, boundary pairs + a stride otherwise */
 		for (a = 1; a < len; a++) for (b = a + 1; b < len; b++) {
 			int keep;
-			if (VF_THOROUGH) keep = n < 3 || wb == 0 || boundary_near(a, P_SZ, n, 6) || boundary_near(b, P_SZ, n, 6) || (a + b) % 3 == 0;
+			if (VF_THOROUGH) keep = n < 3 || boundary_near(a, P_SZ, n, 8) || boundary_near(b, P_SZ, n, 8) || (a + b) % (wb ? 3 : 2) == 0;
 			else if (n == 1) keep = wb == 0 || a % 3 == 1;
 			else keep = (boundary_near(a, P_SZ, n, 4) && boundary_near(b, P_SZ, n, 4)) || (a % 17 == 1 && b % 13 == 2);
 			if (keep) e2e_rx_case(n, a, b, wb);
@@ -1075,17 +1081,57 @@ static int blk_sign(KSI_CTX *ctx, int j, int *own) {
 	return res;
 }
 
-static void blk_calibrate(void) {
+static int blk_calibrate(unsigned char *req, size_t cap, size_t *br, size_t *bp) {
 	KSI_CTX *ctx;
-	int own = 0, res;
+	KSI_DataHash *hsh = NULL;
+	KSI_Signature *sig = NULL;
+	int res, ok;
 	env_install();
 	ctx = ku_ctx();
 	KSI_CTX_setAggregator(ctx, URI, LOGIN, KEY);
-	res = blk_sign(ctx, 0, &own);
-	if (res != KSI_OK || !own || sn_nconn != 1) vf_harness_error("blocking calibration failed 0x%x", res);
-	vb_reset(&BLKREQ); vb_putvb(&BLKREQ, &sn_conns[0].out);
-	BR_SZ = BLKREQ.n; BP_SZ = sn_conns[0].in.n;
+	KSI_DataHash_fromImprint(ctx, IMPR[0], IMPRLEN, &hsh);
+	res = KSI_Signature_signAggregated(ctx, hsh, 0, &sig);
+	ok = res == KSI_OK && sig != NULL && sn_nconn == 1 && sn_conns[0].out.n > 0 && sn_conns[0].out.n <= cap;
+	if (ok) { memcpy(req, sn_conns[0].out.p, sn_conns[0].out.n); *br = sn_conns[0].out.n; *bp = sn_conns[0].in.n; }
+	KSI_Signature_free(sig);
+	KSI_DataHash_free(hsh);
 	KSI_CTX_free(ctx);
+	return ok;
+}
+
+typedef struct { int async_ok, blk_ok; size_t ro[MAXREQ + 1], p, br, bp; unsigned char blkreq[512]; } cal_t;
+static void calibrate_all(void) {
+	int fd[2];
+	pid_t pid;
+	cal_t c;
+	ssize_t n = 0;
+	int st = 0;
+	memset(&c, 0, sizeof c);
+	BR_SZ = 92; BP_SZ = 147;
+	if (pipe(fd) != 0) vf_harness_error("pipe");
+	pid = fork();
+	if (pid < 0) vf_harness_error("fork");
+	if (pid == 0) {
+		ssize_t w;
+		close(fd[0]);
+		c.async_ok = calibrate(c.ro, &c.p);
+		c.blk_ok = blk_calibrate(c.blkreq, sizeof c.blkreq, &c.br, &c.bp);
+		w = write(fd[1], &c, sizeof c);
+		(void)w;
+		_exit(0);
+	}
+	close(fd[1]);
+	{
+		char *q = (char *)&c;
+		size_t got = 0;
+		while (got < sizeof c && (n = read(fd[0], q + got, sizeof c - got)) > 0) got += (size_t)n;
+		if (got != sizeof c) memset(&c, 0, sizeof c);
+	}
+	close(fd[0]);
+	waitpid(pid, &st, 0);
+	cal_async_ok = c.async_ok; cal_blk_ok = c.blk_ok;
+	if (c.async_ok) { memcpy(RO, c.ro, sizeof RO); P_SZ = c.p; }
+	if (c.blk_ok) { BR_SZ = c.br; BP_SZ = c.bp; vb_reset(&BLKREQ); vb_put(&BLKREQ, c.blkreq, c.br); }
 }
 
 /* expect: X_MUST_OK, X_ANY, X_MUST_NETERR (here: any error, no signature) */
@@ -1100,13 +1146,13 @@ static void blk_exec(const char *cls, int expect) {
 		vf_outcome("%s:success", cls);
 		if (!own) vf_fail("foreign-response", "signature for another hash");
 		if (expect == X_MUST_NETERR) vf_fail("signature-from-partial-data", "the response was never delivered completely (%zu of %zu bytes) but signing succeeded", sn_conns[0].in_off, sn_conns[0].in.n);
-		if (sn_conns[0].out.n != BR_SZ || memcmp(sn_conns[0].out.p, BLKREQ.p, BR_SZ) != 0) vf_fail("wire-not-whole-requests", "blocking client wrote %zu bytes, the request has %zu", sn_conns[0].out.n, BR_SZ);
+		if (sn_conns[0].out.n != BR_SZ || (cal_blk_ok && memcmp(sn_conns[0].out.p, BLKREQ.p, BR_SZ) != 0)) vf_fail("wire-not-whole-requests", "blocking client wrote %zu bytes, the request has %zu", sn_conns[0].out.n, BR_SZ);
 	} else {
 		vf_outcome("%s:error:%x", cls, res);
 		if (expect == X_MUST_OK) vf_fail("request-failed", "only short counts / retried interruptions happened but signing failed with 0x%x (read %zu of %zu response bytes, wrote %zu of %zu request bytes)", res,
 		                                 sn_conns[0].in_off, sn_conns[0].in.n, sn_conns[0].out.n, BR_SZ);
 		else if (!is_net_error(res)) vf_fail("not-a-network-error", "connection fault reported as 0x%x, which is not a network error", res);
-		if (sn_conns[0].out.n > BR_SZ || memcmp(sn_conns[0].out.p, BLKREQ.p, sn_conns[0].out.n) != 0) vf_fail("wire-not-whole-requests", "blocking client wrote bytes that are not a prefix of the request");
+		if (sn_conns[0].out.n > BR_SZ || (cal_blk_ok && sn_conns[0].out.n > 0 && memcmp(sn_conns[0].out.p, BLKREQ.p, sn_conns[0].out.n) != 0)) vf_fail("wire-not-whole-requests", "blocking client wrote bytes that are not a prefix of the request");
 	}
 	if (sn_nconn >= 1 && sn_conns[0].state != SN_CLOSED_BY_CLIENT && sn_conns[0].state != SN_CREATED && CS[0].cmode != CM_REFUSED) vf_fail("socket-not-closed", "blocking client left its socket open (state %d)", sn_conns[0].state);
 	/* a later request: fresh connection, whole request, success */
@@ -1186,11 +1232,28 @@ static void part_blk(void) {
 	}
 }
 
+/* the default schedule (everything delivered / accepted at once) inside a case, so that its failure is a reported violation */
+static void part_cal(void) {
+	if (vf_case_begin("cal:async")) {
+		scen_t sc = {3, 2, 0, 1, 40, "cal:async"};
+		env_install();
+		scenario(&sc);
+		if (!cal_async_ok) vf_fail("default-schedule-failed", "asynchronous service: %d requests under the default schedule (every socket call succeeds completely) did not all complete with their own responses on one connection", NCAL);
+		vf_case_end(1);
+	}
+	if (vf_case_begin("cal:blk")) {
+		env_install();
+		blk_exec("cal:blk", X_MUST_OK);
+		if (!cal_blk_ok) vf_fail("default-schedule-failed", "blocking client: signing under the default schedule failed");
+		vf_case_end(1);
+	}
+}
+
 static void run(void) {
 	const char *only = getenv("C14_PART");     /* debugging aid: run one part only */
 	imprints_init();
-	calibrate();
-	blk_calibrate();
+	calibrate_all();
+	part_cal();
 #define PART(name, fn) if (!only || strcmp(only, name) == 0) fn()
 	PART("rxc", part_rxc);
 	PART("flt", part_flt);
